@@ -15,10 +15,10 @@ TECH={
  "C05":"deterministic simulation: reference model of service replies vs verdict content",
  "C06":"deterministic simulation: per-step obligation and field-by-field reconstruction of every query",
  "C09":"deterministic simulation: grammar + independent address parser on every output line",
- "C10":"deterministic simulation with real libevent timers on a simulated clock: reference count model, structural audit, ASan/LSan at exit",
+ "C10":"deterministic simulation with real libevent timers on a simulated clock: reference count model, structural audit, ASan/LSan at exit; differential burst runs (same history, several lines per read)",
  "C11":"deterministic simulation: independent rule evaluator compared at every acceptance",
  "C04":"deterministic simulation, differential: same seeded history with and without one injected stray reply, byte-equal outputs",
- "C07":"deterministic simulation, metamorphic: per-client projections equal across seeded interleavings (and vs solo runs)",
+ "C07":"deterministic simulation, metamorphic: per-client projections equal across seeded interleavings (and vs solo runs), with id take-over, late replies, a crowd of earlier clients and a table reload at fixed per-client positions",
  "C08":"deterministic simulation with fault injection on the byte pipe: arbitrary bytes, read boundaries, EINTR/EAGAIN, EOF at any byte; sanitizer/exit oracle + differential outputs",
  "C14":"deterministic simulation: torn/garbled/missing config and failing fread at reload, dump-before == dump-after + hook log + ASan",
  "C15":"deterministic simulation: seeded reload/registration histories against a reference model of the config store",
